@@ -561,3 +561,20 @@ Proof.
   assert (Hl4 : loop_at s4 i a (PSend (announce c (amac a)) true)) by (rewrite Hs4; apply others_keep; auto).
   destruct (send_step s4 i a _ _ c Hl4) as [s5 [E [L _]]]. exists s5. auto.
 Qed.
+
+(* ---------------------------------------------------------------- *)
+(* StartHunt *)
+
+Theorem start_idempotent : forall c s a,
+  hunted s (amac a) = true -> step c s (StartHunt a) = (s, []).
+Proof. intros c s a H. simpl. unfold start_hunt. unfold hunted in H. rewrite H. reflexivity. Qed.
+
+Theorem start_fresh : forall c s a,
+  hunted s (amac a) = false ->
+  exists s', step c s (StartHunt a) = (s', []) /\ hunted s' (amac a) = true /\
+             loops s' = loops s ++ [mkLoop a PTop] /\ closed s' = closed s.
+Proof.
+  intros c s a H. simpl. unfold start_hunt. unfold hunted in H. rewrite H.
+  eexists. split; [reflexivity|]. simpl. split; auto.
+  unfold hunted. simpl. rewrite hunt_has_app, N.eqb_refl. apply orb_true_r.
+Qed.
